@@ -329,6 +329,27 @@ func exportableTerm(sx *Sx) bool {
 	return false
 }
 
+// zeroTagLen rewrites every (T len enc pad ...) with an encoding other than BerTag to (T 0 enc N x00 ...)
+func zeroTagLen(sx *Sx) (*Sx, bool) {
+	if !sx.IsL {
+		return sx, false
+	}
+	changed := false
+	out := make([]*Sx, len(sx.List))
+	for i, c := range sx.List {
+		z, ch := zeroTagLen(c)
+		out[i] = z
+		changed = changed || ch
+	}
+	if len(out) == 8 && !out[0].IsL && out[0].Atom == "T" && out[2].Atom != "nil" && out[2].Atom != "BerTag" && out[1].Atom != "0" {
+		out[1] = I(0)
+		out[3] = A("N")
+		out[4] = X([]byte{0})
+		changed = true
+	}
+	return L(out...), changed
+}
+
 func exportableMsg(sx *Sx) bool {
 	a := sx.Args()
 	if !exportableTerm(a[0]) || a[1].List[2].Atom == "EBCDIC1047" || strings.HasPrefix(a[1].List[3].Atom, "EBCDIC1047") {
@@ -367,6 +388,17 @@ func init() {
 			g := genMsg(r, false)
 			restrictExportable = false
 			emit(L(A("specjson.export"), g.term))
+			// the same specification with the tag length of every encoded tag left out (Tag.Enc set, Tag.Length 0)
+			if z, changed := zeroTagLen(g.term); changed {
+				emit(L(A("specjson.export"), z))
+				if _, rawz, err := exportCanon(buildMessageSpec(z)); err == nil {
+					dz := json.NewDecoder(bytes.NewReader(rawz))
+					dz.UseNumber()
+					var vz any
+					dz.Decode(&vz)
+					emit(L(A("specjson.import"), jsonToJdoc(vz)))
+				}
+			}
 			c, raw, err := exportCanon(buildMessageSpec(g.term))
 			_ = c
 			if err != nil {
